@@ -81,6 +81,7 @@ def run(ctx, rep):
     m = Machine(facts, opaque_fns=[ETS, "ast::Range::new"], pure_fns=[ETS, "ast::Range::new"])
     paths = m.run(FPE, [sym_ref("lookup"), Opaque("e", "lalrpop_util::ParseError")])
     seen = {}
+    raw = {}
     for p in paths:
         var = [v for l, v in p.conds if isinstance(l, tuple) and l[0] == "variant" and l[1] == "e"]
         var = var[0] if var else "?"
@@ -90,6 +91,7 @@ def run(ctx, rep):
             msg = lab(d.fields[2].val) if isinstance(d, AdtVal) and 2 in d.fields else None
             kind = d.fields[0].val.vname if isinstance(d, AdtVal) and isinstance(d.fields[0].val, AdtVal) else None
             seen[var] = (kind, fmt_label(msg), fmt_label(range_label(d.fields[1].val)) if isinstance(d, AdtVal) else None)
+            raw.setdefault(var, []).extend([msg] + [lab(d.fields[i].val) for i in (3, 4) if i in d.fields])
         elif isinstance(r, AdtVal) and r.vname == "None":
             seen[var] = (None, None, None)
         else:
@@ -101,6 +103,48 @@ def run(ctx, rep):
         ok = kind == "Error" and msg is not None and want in msg and msg.startswith("(fmt, ")
         rep.check(ok, "F2", "C20|F2|%s" % var, cfg.where(ff), "ParseError::%s: the message must embed expected_token_str(&expected) of the untouched expectation vector; extracted kind %s, message %s" % (var, kind, msg),
                   sample={"variant": var, "message": msg})
+    # ---- F5: the message names nothing outside the set
+    rep.rule("F5", "the message names nothing outside the set: every dynamic part of a syntax-error message (message, context, hint) is the offending token's own text or expected_token_str(expected); "
+                   "no literal part contains the display name of a grammar terminal (IDENT, INTEGER, ... read from the grammar)")
+    bare = sorted(t["name"] for t in ctx.gram["terminals"] if t["kind"] == "bare")
+    rep.floor("F5", "named terminals of the grammar", len(bare), 15)
+    word = re.compile(r"(?<![A-Za-z0-9_])(%s)(?![A-Za-z0-9_])" % "|".join(re.escape(b) for b in bare))
+
+    def dyn_parts(l, var, out_dyn, out_lit):
+        if isinstance(l, tuple) and l and l[0] == "fmt":
+            out_lit.append(l[1] if isinstance(l[1], str) else repr(l[1]))
+            for a in l[2]:
+                dyn_parts(a[2] if isinstance(a, tuple) and a and a[0] == "fmtarg" else a, var, out_dyn, out_lit)
+        elif isinstance(l, tuple) and l and l[0] == "const":
+            out_lit.append(str(l[-1]))
+        elif isinstance(l, tuple) and l and l[0] == "adt" and l[1] == "std::option::Option":
+            for _, x in (l[3] or ()):
+                dyn_parts(x, var, out_dyn, out_lit)
+        elif isinstance(l, tuple) and l and l[0] == "call" and l[1].rsplit("::", 1)[-1] in ("to_owned", "to_string", "from", "into", "clone") and len(l[2]) == 1:
+            dyn_parts(l[2][0], var, out_dyn, out_lit)
+        elif l is not None:
+            out_dyn.append(l)
+    for var in sorted(raw):
+        dyn, lit = [], []
+        for l in raw[var]:   # every path of this variant
+            dyn_parts(l, var, dyn, lit)
+        allowed = lambda x: x == ("call", ETS, ("e.%s.expected" % var,)) or (isinstance(x, str) and (x == "e.%s.token.1" % var or x.startswith("e.%s.token.1." % var)))
+        foreign = [fmt_label(x) for x in dyn if not allowed(x)]
+        named = sorted(set(m.group(1) for t in lit for m in word.finditer(t)))
+        rep.check(not foreign and not named, "F5", "C20|F5|%s" % var, cfg.where(ff),
+                  "ParseError::%s: the diagnostic's texts may be built only from the offending token's text and expected_token_str(expected); other dynamic parts %r, terminal names in literal text %r "
+                  "(such a part can name a token kind the parser was not prepared to accept at this point)" % (var, foreign, named),
+                  sample={"variant": var, "dynamic_parts": [fmt_label(x) for x in dyn], "literals": lit})
+    # literal parts of expected_token_str itself
+    lits = []
+    for n in (0, 1, 2, 3):
+        v = VecVal([Cell(Opaque("v[%d]" % i)) for i in range(n)])
+        for p in Machine(facts).run(ETS, [Ref(Cell(v))]):
+            d, l2 = [], []
+            dyn_parts(lab(p.ret), "-", d, l2)
+            lits += l2
+    named = sorted(set(m.group(1) for t in lits for m in word.finditer(t)))
+    rep.check(not named and bool(lits), "F5", "C20|F5|expected_token_str|literals", cfg.where(fn), "the fixed text of expected_token_str must not name a terminal itself; found %r in %r" % (named, lits[:6]), sample={"literals": sorted(set(lits))})
     # ---- F3
     fe = facts.fn(FER)
     clos = facts.closures_of(FER)
@@ -134,6 +178,8 @@ def run(ctx, rep):
         body = facts.fns[a]["body"]
         if cfg.call_sites(body, lambda c: c == FER):
             rec.append(a)
+    import c12
+    c12.add_content_rule(ctx, rep, "C20", "F4")   # nothing rewrites the stored messages after the conversion
     rep.floor("F4", "recovery actions calling from_error_recovery", len(rec), 4)
     rep.assumptions += ["TB-1 rustc MIR", "TB-2 the generated parser supplies its own expectation set in ParseError::{UnrecognizedToken, UnrecognizedEOF}.expected",
                         "bound: vector lengths 0..%d (the property explores sizes 0 to ~15); the len>=3 arm is one straight-line expression in len" % MAXLEN]
